@@ -175,15 +175,16 @@ def padMatrix (cols : List (List Int)) (rows ncols : Nat) : Option (List (List I
   some (cols.map (fun col => col ++ List.replicate (rows - col.length) (-1)) ++
         List.replicate (ncols - c) (List.replicate rows (-1)))
 
+/-- padding of one feature matrix to the shape declared for its key (`KeyError` when the key is not declared) -/
+def padFeat (sp : Space) (tc : FT × List (List Int)) : Option (FT × List (List Int)) :=
+  match sp.feats.find? (·.1 == tc.1) with
+  | none => none
+  | some (_, rows, ncols) => (padMatrix tc.2 rows ncols).map fun m => (tc.1, m)
+
 /-- `_add_padding_to_observation`: `removed_nodes` padded with `True`, everything else with `-1` -/
 def padObs (sp : Space) (o : EObs) : Option EObs :=
   match padEnd o.removed sp.nNodes true, padEnd o.edgeIndex sp.nEdges (-1, -1) with
-  | some rm, some ei =>
-    let fs := o.feats.mapM fun tc =>
-      match sp.feats.find? (·.1 == tc.1) with
-      | none => none
-      | some (_, rows, ncols) => (padMatrix tc.2 rows ncols).map fun m => (tc.1, m)
-    fs.map fun fs => { removed := rm, edgeIndex := ei, feats := fs }
+  | some rm, some ei => (o.feats.mapM (padFeat sp)).map fun fs => { removed := rm, edgeIndex := ei, feats := fs }
   | _, _ => none
 
 structure MultiEnv where
